@@ -463,8 +463,10 @@ def check_c11(an):
             if bad:
                 an.add('C11', 'auction-replica', f'{who} board {b} at call {snap["n"]}: ' +
                        '; '.join(bad), key='auction-replica:' + bad[0].split(' ')[0])
+        if getattr(obs, 'gaps', 0):
+            an.stats['c11_observation_gaps'] = an.stats.get('c11_observation_gaps', 0) + obs.gaps
         for b, c in enumerate(obs.contracts):
-            if b >= nb or an.decisions[b]['result'] is None:
+            if b >= nb or an.decisions[b]['result'] is None or c == pb.GAP:
                 continue
             res = an.decisions[b]['result']
             vul = rb.VULS.index(run.scn['boards'][b]['vul']) + 1
@@ -506,9 +508,10 @@ def check_c11(an):
                 continue
             p = _model_play_at(an, b, 52)
             _cmp_play(an, who, b, snap, p, final=True)
-        for b, (num, dealer, vul, hand) in enumerate(obs.deal_info):
-            if b >= len(run.scn['boards']):
+        for b, di in enumerate(obs.deal_info):
+            if b >= len(run.scn['boards']) or di == pb.GAP:
                 continue
+            num, dealer, vul, hand = di
             bd = run.scn['boards'][b]
             if num != b + 1 or dealer != bd['dealer'] or vul != rb.VULS.index(bd['vul']) + 1 or \
                     hand != sorted(bd['deal'][pl.seat]):
